@@ -217,10 +217,55 @@ func (w *World) handlerClosure(h *ssa.Function) []*ssa.Function {
 				return
 			}
 			for i, a := range c.Common().Args {
-				if a == exprParam && i < len(sc.Params) {
-					walk(sc, sc.Params[i])
+				if exprParam != nil && i < len(sc.Params) {
+					if ld, isLd := a.(*ssa.UnOp); a == exprParam || (isLd && ld.Op == token.MUL && ld.X == exprParam) {
+						walk(sc, sc.Params[i])
+					}
 				}
 			}
+			// a driver of the package that is handed a function literal of this function: the driver runs code of
+			// the handler (the literal), so both belong to it
+			for _, a := range c.Common().Args {
+				var lit *ssa.Function
+				switch x := a.(type) {
+				case *ssa.MakeClosure:
+					lit, _ = x.Fn.(*ssa.Function)
+				case *ssa.Function:
+					lit = x
+				}
+				if lit != nil && lit.Parent() == fn {
+					walk(sc, nil)
+				}
+			}
+		})
+		// function literals of the handler: the expression reaches them as a captured variable
+		allInstrs(fn, func(in ssa.Instruction) {
+			mc, ok := in.(*ssa.MakeClosure)
+			if !ok {
+				return
+			}
+			lit, ok := mc.Fn.(*ssa.Function)
+			if !ok || lit.Parent() != fn {
+				return
+			}
+			var fv ssa.Value
+			for i, b := range mc.Bindings {
+				if exprParam == nil || i >= len(lit.FreeVars) {
+					continue
+				}
+				if b == exprParam {
+					fv = lit.FreeVars[i]
+				}
+				// captured by reference: the cell the parameter was spilled into
+				if al, isAl := b.(*ssa.Alloc); isAl {
+					for _, st := range storesInto(al) {
+						if st.Addr == ssa.Value(al) && st.Val == exprParam {
+							fv = lit.FreeVars[i]
+						}
+					}
+				}
+			}
+			walk(lit, fv)
 		})
 	}
 	var ep ssa.Value
@@ -232,6 +277,39 @@ func (w *World) handlerClosure(h *ssa.Function) []*ssa.Function {
 		}
 	}
 	walk(h, ep)
+	return out
+}
+
+// handlerClosureH: handlerClosure of the handler's function, extended by the functions bound to the function-valued
+// parameters and captured variables it calls (a handler that delegates to a generic driver with a step function, a
+// closure built by a factory).
+func (w *World) handlerClosureH(h *Handler) []*ssa.Function {
+	out := w.handlerClosure(h.Fn)
+	if h.ParamBind == nil && h.Bind == nil {
+		return out
+	}
+	seen := map[*ssa.Function]bool{}
+	for _, fn := range out {
+		seen[fn] = true
+	}
+	for i := 0; i < len(out) && i < 64; i++ {
+		allInstrs(out[i], func(in ssa.Instruction) {
+			c, ok := in.(ssa.CallInstruction)
+			if !ok || staticCallee(c) != nil || c.Common().IsInvoke() {
+				return
+			}
+			g := h.boundFunc(c.Common().Value)
+			if g == nil || fnPkgKey(g) != "exec" || seen[g] {
+				return
+			}
+			for _, x := range w.handlerClosure(g) {
+				if !seen[x] {
+					seen[x] = true
+					out = append(out, x)
+				}
+			}
+		})
+	}
 	return out
 }
 
